@@ -123,7 +123,7 @@ def handle (l : String) : String :=
       -- the buffers the MODEL says Run materialises: 1 MiB + 16·buffers (modexp, when Run is reached), 1 MiB otherwise
       let goF := fields go
       let goAlloc := match goF with | [_, _, _, al] => al.toNat! | _ => 0
-      let buffers := if isPre && ok && a == 5 then Pre.modexpRunBuffers (Pre.hdrWord input 0) (Pre.hdrWord input 32) (Pre.hdrWord input 64) else 0
+      let buffers := if isPre && ok then Pre.runBuffers a input else 0
       let m := (if ok then "pre-ok" else "pre-fail-outOfGas") ++ s!" {if ok then left else 0} {ol} {goAlloc}"
       let goLeft := match goF with | _ :: lo :: _ => lo.toNat! | _ => 0
       if goAlloc > 1048576 + 16 * buffers then
